@@ -938,19 +938,86 @@ def rule_enumpaths(m):
             else:
                 VS, PS = ('var', vs[0]), ('var', ps[0])
 
+                def unmove(t):
+                    while t[0] == 'call' and t[1] in ('std::move', 'std::forward') and len(t[2]) == 1:
+                        t = t[2][0]
+                    return strip_cast(t)
+
+                def calls_in(g, gtt, obj, name):
+                    return [n for n in g.nodes if n['k'] == 'CXXMemberCallExpr' and 'callee' in n and
+                            g.unit.decl(n['callee'])['name'] in ((name, 'emplace') if name == 'push' else (name,)) and
+                            gtt.t(n['obj']) == obj]
+
                 def calls(obj, name):
-                    return [n for n in f.nodes if n['k'] == 'CXXMemberCallExpr' and 'callee' in n and
-                            u.decl(n['callee'])['name'] == name and tt.t(n['obj']) == obj]
-                pv, pp = calls(VS, 'push'), calls(PS, 'push')
+                    return calls_in(f, tt, obj, name)
+
+                def refills(g, gtt):
+                    """[(X, P, loop node)] loops over preds.second[X] whose body pushes (loop variable, P) on the two stacks and
+                    nothing else; None when a push on either stack is outside such a loop"""
+                    out = []
+                    claimed = set()
+                    for lp in g.nodes:
+                        if lp['k'] != 'CXXForRangeStmt':
+                            continue
+                        r = strip_cast(gtt.t(lp['rangeinit']))
+                        if not (r[0] == 'idx' and r[1] == ('member', preds, 'std::pair::second')):
+                            continue
+                        lv = ('var', lp['loopvar'])
+                        body = set(g.descendants(lp['body']))
+                        a = [n for n in calls_in(g, gtt, VS, 'push') if n['i'] in body]
+                        b = [n for n in calls_in(g, gtt, PS, 'push') if n['i'] in body]
+                        if len(a) == 1 and len(b) == 1 and unmove(gtt.t(a[0]['args'][0])) == lv and \
+                                g.region(a[0]['i']) == g.region(b[0]['i']) and \
+                                not (g.region(a[0]['i']) - g.region(lp['loopvarstmt'])):
+                            out.append((r[2], strip_cast(gtt.t(b[0]['args'][0])), lp))
+                            claimed |= {a[0]['i'], b[0]['i']}
+                    loose = [n for n in calls_in(g, gtt, VS, 'push') + calls_in(g, gtt, PS, 'push') if n['i'] not in claimed]
+                    return None if loose else out
+                # refill steps written in the function itself, and those in a local lambda (one instance per call)
+                inst = []       # (X, P, anchor node in f: where the step happens)
+                direct = refills(f, tt)
+                bad_push = direct is None
+                for (X, P, lp) in direct or []:
+                    inst.append((X, P, lp['rangeinit']))
+                for n in f.nodes:
+                    if n['k'] != 'LambdaExpr':
+                        continue
+                    L = u.function_for_decl(n['callop'])
+                    if L is None:
+                        continue
+                    ltt = Terms(L)
+                    lr = refills(L, ltt)
+                    if lr is None:
+                        bad_push = True
+                        continue
+                    if not lr:
+                        continue
+                    holder = None
+                    for dn in f.nodes:
+                        if dn['k'] == 'DeclStmt':
+                            for ix, d in enumerate(dn['decls']):
+                                if ix < len(dn['c']) and dn['c'][ix] >= 0 and tt.t(dn['c'][ix]) == ('lambda', n['callop']):
+                                    holder = ('var', d)
+                    # the loop must be all the lambda does with the graph walk: no other statement at its top level
+                    top = L.nodes[L.body]
+                    if holder is None or len(lr) != 1 or len(top.get('c', [])) != 1 or top['c'][0] != lr[0][2]['i']:
+                        bad_push = True
+                        continue
+                    for cn in f.nodes:
+                        if cn['k'] == 'CXXOperatorCallExpr' and 'callee' in cn and u.decl(cn['callee']).get('op') == '()':
+                            ct = tt.t(cn['i'])
+                            if ct[0] == 'mcall' and ct[2] == holder and len(ct[3]) == len(L.params):
+                                sub = {('var', p): a for p, a in zip(L.params, ct[3])}
+                                from .rules_pair import subst
+                                inst.append((strip_cast(subst(lr[0][0], sub)), strip_cast(subst(lr[0][1], sub)), cn['i']))
                 ov, op = calls(VS, 'pop'), calls(PS, 'pop')
                 tv, tp = calls(VS, 'top'), calls(PS, 'top')
-                # lockstep: same number of pushes, each pair in the same region
-                if len(pv) != len(pp) or len(pv) != 2 or len(ov) != 1 or len(op) != 1 or len(tv) != 1 or len(tp) != 1:
-                    why = 'expected two pushes per stack and one pop / top per stack (pushes %d/%d, pops %d/%d)' % (len(pv), len(pp), len(ov), len(op))
+                if bad_push:
+                    why = 'a vertex is pushed without its partial path (or vice versa), or outside a loop over the predecessors of a vertex'
+                elif len(inst) != 2 or len(ov) != 1 or len(op) != 1 or len(tv) != 1 or len(tp) != 1:
+                    why = 'expected two refill steps (destination, popped vertex) and one pop / top per stack (steps %d, pops %d/%d)' % (
+                        len(inst), len(ov), len(op))
                 else:
-                    for a, b in zip(sorted(pv, key=lambda n: n['i']), sorted(pp, key=lambda n: n['i'])):
-                        if f.region(a['i']) != f.region(b['i']):
-                            why = 'a vertex is pushed without its partial path (or vice versa)'
                     if f.region(ov[0]['i']) != f.region(op[0]['i']):
                         why = why or 'the two stacks are not popped together'
                     # current vertex / current path variables
@@ -959,33 +1026,41 @@ def rule_enumpaths(m):
                         if n['k'] in ('BinaryOperator', 'CXXOperatorCallExpr'):
                             t = tt.t(n['i'])
                             if t[0] == 'bin' and t[1] == '=' and t[2][0] == 'var':
-                                if t[3] == ('mcall', 'std::stack::top', VS, ()):
+                                if unmove(t[3]) == ('mcall', 'std::stack::top', VS, ()):
                                     cur = t[2]
-                                if t[3] == ('mcall', 'std::stack::top', PS, ()):
+                                if unmove(t[3]) == ('mcall', 'std::stack::top', PS, ()):
                                     cl = t[2]
+                        if n['k'] == 'DeclStmt':
+                            for ix, d in enumerate(n['decls']):
+                                if ix < len(n['c']) and n['c'][ix] >= 0 and not u.decl(d).get('isref'):
+                                    t = unmove(tt.t(n['c'][ix]))
+                                    while t[0] == 'ctor' and len(t[2]) == 1:
+                                        t = unmove(t[2][0])
+                                    if t == ('mcall', 'std::stack::top', VS, ()):
+                                        cur = ('var', d)
+                                    if t == ('mcall', 'std::stack::top', PS, ()):
+                                        cl = ('var', d)
                     if cur is None or cl is None:
                         why = why or 'the popped vertex / path are not taken from the tops of the two stacks'
                     else:
-                        loops = [n for n in f.nodes if n['k'] == 'CXXForRangeStmt']
-                        seeds = [n for n in loops if strip_cast(tt.t(n['rangeinit'])) == ('idx', ('member', preds, 'std::pair::second'), dest)]
-                        kids = [n for n in loops if strip_cast(tt.t(n['rangeinit'])) == ('idx', ('member', preds, 'std::pair::second'), cur)]
+                        seeds = [i for i in inst if i[0] == dest]
+                        kids = [i for i in inst if i[0] == cur]
                         if len(seeds) != 1 or len(kids) != 1:
                             why = why or 'the stacks are not seeded with the predecessors of the destination / refilled with the ' \
                                          'predecessors of the popped vertex'
                         else:
-                            for lp in (seeds[0], kids[0]):
-                                lv = ('var', lp['loopvar'])
-                                body = set(f.descendants(lp['body']))
-                                if not any(n['i'] in body and tt.t(n['args'][0]) == lv for n in pv) or \
-                                        not any(n['i'] in body and tt.t(n['args'][0]) == cl for n in pp):
-                                    why = why or 'inside a predecessor loop the predecessor and the current partial path are not pushed'
+                            sp = seeds[0][1]
+                            empty_list = sp[0] == 'ctor' and sp[1].startswith('std::list<') and sp[2] == ()
+                            if kids[0][1] != cl or not (sp == cl or empty_list):
+                                why = why or 'inside a predecessor loop the predecessor and the current partial path are not pushed'
                             pf = [n for n in f.nodes if n['k'] == 'CXXMemberCallExpr' and 'callee' in n and
                                   u.decl(n['callee'])['name'] == 'push_front' and tt.t(n['obj']) == cl and tt.t(n['args'][0]) == cur]
-                            if len(pf) != 1 or not f.can_reach_forward(pf[0]['i'], kids[0]['rangeinit']):
+                            if len(pf) != 1 or not f.can_reach_forward(pf[0]['i'], kids[0][2]):
                                 why = why or 'the popped vertex is not prepended to the partial path before its predecessors are pushed'
+                            # the path popped from the stack must not be read back after it has been moved from
                             # record when cur == source
                             rec = [n for n in f.nodes if n['k'] == 'CXXMemberCallExpr' and 'callee' in n and
-                                   u.decl(n['callee'])['name'] == 'push_back' and tt.t(n['args'][0]) == cl]
+                                   u.decl(n['callee'])['name'] in ('push_back', 'emplace_back') and unmove(tt.t(n['args'][0])) == cl]
                             okr = False
                             for n in rec:
                                 for t in region_atoms(f, tt, n['i']):
@@ -994,7 +1069,7 @@ def rule_enumpaths(m):
                                               u.decl(x['callee'])['name'] == 'push_back' and tt.t(x['obj']) == cl and
                                               tt.t(x['args'][0]) == dest and f.region(x['i']) == f.region(n['i']) and
                                               f.can_reach_forward(x['i'], n['i'])]
-                                        if pb:
+                                        if pb and (tt.t(n['args'][0]) == cl or f.can_reach_forward(kids[0][2], n['i'])):
                                             okr = True
                             if not okr:
                                 why = why or 'a path is not recorded exactly when the popped vertex is the source, with the destination appended'
